@@ -1015,6 +1015,15 @@ pub(crate) fn tan(n1: Number) -> Result<f64, MachineStubGen> {
 
 #[inline]
 pub(crate) fn log(n1: Number) -> Result<f64, MachineStubGen> {
+    if n1.is_zero() {
+        let stub_gen = || {
+            let is_atom = atom!("is");
+            functor_stub(is_atom, 2)
+        };
+
+        return Err(undefined_eval_error(stub_gen));
+    }
+
     unary_float_fn_template(n1, |f| f.log(f64::consts::E))
 }
 
